@@ -75,11 +75,13 @@ def hand_specs(draw):
     perm = draw(st.permutations(list(range(n))))
     nodes: list[dict] = []
     for i in range(n):
-        kind = draw(st.sampled_from(["single", "single", "gen", "gen1"]))
+        kind = draw(st.sampled_from(["single", "single", "gen", "gen1", "gen_single"]))
         if kind == "single":
             nout, is_gen = 1, False
         elif kind == "gen1":
             nout, is_gen = 1, False  # a one-output node declared through an explicit single name
+        elif kind == "gen_single":
+            nout, is_gen = 1, True  # a generator that yields exactly one value for its one declared output
         else:
             nout = draw(st.sampled_from([2, 3, 4, 9, 10, 11, 12, 15]))
             is_gen = True
@@ -307,15 +309,13 @@ def run_fluent(c) -> tuple[bool, list[str]]:
 
     for i in range(k):
         for j in range(N):
-            el = a.nodes.sel(x=i, y=coords[j]).item() if N > 1 or "y" in a.nodes.dims else a.nodes.sel(x=i).item()
-            exp = ("G", ("S", i), j) if N > 1 else None
-            if N == 1:
-                continue
+            el = a.nodes.sel(x=i, y=coords[j]).item()
+            exp = ("G", ("S", i), j)
             got = val(el)
             if got != exp:
                 raise Violation(f"coordinate (x={i}, y={coords[j]!r}) of a generator with {N} yields carries {got!r}, "
                                 f"the {j}-th yielded value is {exp!r}", "yield-coordinate")
-    if N > 1:
+    if True:
         if c["consumer"] == "map":
             for i in range(k):
                 for j in range(N):
